@@ -19,7 +19,7 @@ LEVEL_TEXT = (
     'overwrites a non-empty local queue and hands processed work back; its join no longer waits for '
     'the control-flow forwarder. The HTTP/JS layer end to end and ui/app.js are not analysed.')
 
-FLOORS = {'C19-R1': 7, 'C19-R2': 4, 'C19-R3': 6, 'C19-R4': 3, 'C19-R5': 4, 'C19-R6': 3}
+FLOORS = {'C19-R1': 7, 'C19-R2': 4, 'C19-R3': 6, 'C19-R4': 3, 'C19-R5': 4, 'C19-R6': 3, 'C03-R2': 2}
 
 STATES = 'checker::explorer::states'
 STATUS = 'checker::explorer::status'
@@ -456,6 +456,14 @@ def run(ctx):
     with ctx.rule('C19-R4', 'OD'):
         r4_od_sibling(ctx, F)
     r5_worker_queue(ctx, F)
+    # "run to completion behaves like BFS" includes its eventually verdicts: the terminal flag of the
+    # on-demand check_block obeys the same rule as BFS's (C03-R2)
+    import c03
+    from checkers import CB as _CB
+    ctx.doc('C03-R2', 'on-demand: the terminal flag is false on every path from an in-boundary successor to the '
+                      'terminal test, and set to true only before the successor loop')
+    with ctx.rule('C03-R2', 'OD'):
+        c03.r2_terminal_flag(ctx, _CB(F, 'OD'))
     ctx.doc('C19-R6', 'Model::next_steps pairs every action with next_state(last_state, that action)')
     with ctx.rule('C19-R6', 'next_steps'):
         r6_next_steps(ctx, F)
